@@ -27,7 +27,7 @@ func checkC10(c *Ctx) {
 	live := c.LiveReach()
 	r.Min("C10.non-empty", 1)
 	r.Min("C10.cap", 3)
-	r.Min("C10.own-token", 1)
+	r.Min("C10.own-token", 2)
 	r.Min("C10.fee-order", 2)
 	r.Min("C10.counters", 4)
 	// the batch-nonce counter survives a restart: the genesis clauses that restore it (C15)
@@ -54,6 +54,21 @@ func checkC10(c *Ctx) {
 						txVar, batchAlloc = al, a
 					}
 				}
+			}
+		}
+		// the batch is filed under the token id it was asked for, unchanged: the selection, the transfers' own
+		// token and the lookup on execution all use that string as it is
+		for _, a := range allocsOfType(f, "BatchTx") {
+			for _, v := range ana.FieldStores(a)["ExternalTokenId"] {
+				l := p.Leaves(v, ana.PVOpt{})
+				isPar := false
+				for lab := range l.Leaves {
+					if strings.HasPrefix(lab, "param:"+fname(f)+"#") {
+						isPar = true
+					}
+				}
+				r.Check(isPar && len(l.Ops) == 0 && len(l.Leaves) == 1, "C10.own-token", "header:"+fname(f), c.pos(a), "the batch's ExternalTokenId is the requested token id, unchanged",
+					"the batch header's ExternalTokenId is not the requested token id as given ("+strings.Join(l.List(), ",")+" through "+strings.Join(l.OpList(), ",")+"): a transformed id no longer equals its transfers' token or the registered token (decimal Minter ids are not hex addresses)")
 			}
 		}
 		if txVar == nil {
